@@ -239,6 +239,13 @@ Theorem C09_dp_equals_enumerated_minimum : forall nodes app szs o so fuel cap sc
 Proof. exact dp_equals_brute. Qed.
 Print Assumptions C09_dp_equals_enumerated_minimum.
 
+(* the executable fullness check the harness evaluates on every returned tree is sound: together with
+   `admissible ... = true` (also evaluated) it discharges, case by case, the existence hypothesis of
+   C09_dp_terminates / C09_dp_result_total for search_outer = false *)
+Theorem C09_full_treeb_sound : forall n t, full_treeb n t = true -> full_tree n t.
+Proof. exact full_treeb_sound. Qed.
+Print Assumptions C09_full_treeb_sound.
+
 (* ---- the traced loop used by the correspondence computes the same tables ---- *)
 Theorem C09_traced_loop_is_the_loop : forall app szs obj so nt fuel cap st,
   option_map (fun r => (fst (fst r), snd r)) (dp_loop_tr app szs obj so nt fuel cap st)
